@@ -160,6 +160,9 @@ impl Scenario for Entropy {
         let (name, op) = ENTRY_POINTS[(plan.get("entry") as usize) % ENTRY_POINTS.len()];
         let n = plan.get("n").max(2) as usize;
         let mode = plan.steps.first().map(|s| s.k.clone()).unwrap_or_default();
+        if mode.is_empty() {
+            return; // a plan without its step (produced while shrinking) does nothing
+        }
         // frozen simulated clock: a generator seeded from time repeats with certainty, not rarely
         seams::set_clock_ns(Some(EPOCH_NS + 1_000_000_007));
         let Some(fx) = fixture(rec, lib, g, plan.get("scheme") as u8) else { return };
